@@ -324,7 +324,7 @@ pub fn child_main(args: &[String]) -> i32 {
                 match rustradio::circular_buffer::Buffer::<u32>::new(size) {
                     Ok(b) => {
                         oks += 1;
-                        held.push(b);
+                        held.push(std::sync::Arc::new(b));
                     }
                     Err(_) => {
                         if first_fail_at.is_none() {
@@ -346,6 +346,47 @@ pub fn child_main(args: &[String]) -> i32 {
             let held_n = held.len();
             let expected_maps = base_deleted + 2 * held_n;
             let maps_ok = deleted_mappings() == expected_maps;
+            // every buffer that was handed out under memory pressure must be a whole one: the
+            // advertised capacity, and a full window that reads back what was written (the
+            // last ones created are the ones closest to the limit)
+            let mut data_ok = true;
+            for b in held.iter().rev().take(64) {
+                let want = size / 4;
+                if b.total_size() != want || b.free() != want {
+                    data_ok = false;
+                    break;
+                }
+                {
+                    let mut w = match b.clone().write_buf() {
+                        Ok(w) => w,
+                        Err(_) => {
+                            data_ok = false;
+                            break;
+                        }
+                    };
+                    if w.len() != want {
+                        data_ok = false;
+                        break;
+                    }
+                    for (i, x) in w.slice().iter_mut().enumerate() {
+                        *x = (i as u32).wrapping_mul(2654435761) ^ 0x5a5a;
+                    }
+                    w.produce(want, &[]);
+                }
+                match b.clone().read_buf() {
+                    Ok((r, _)) => {
+                        if r.len() != want || r.slice().iter().enumerate().any(|(i, x)| *x != (i as u32).wrapping_mul(2654435761) ^ 0x5a5a) {
+                            data_ok = false;
+                        }
+                        let n = r.len();
+                        r.consume(n);
+                    }
+                    Err(_) => data_ok = false,
+                }
+                if !data_ok {
+                    break;
+                }
+            }
             drop(held);
             let after_drop = deleted_mappings();
             // a fresh stream still works once memory is back
@@ -355,7 +396,7 @@ pub fn child_main(args: &[String]) -> i32 {
             println!(
                 "{}",
                 json!({"mode":"rlimit","oks":oks,"errs":errs,"first_fail_at":first_fail_at,"growth_after_fail":growth_after_fail,
-                       "maps_ok":maps_ok,"after_drop":after_drop,"base":base_deleted,"hist_ok":hist_ok})
+                       "maps_ok":maps_ok,"data_ok":data_ok,"after_drop":after_drop,"base":base_deleted,"hist_ok":hist_ok})
             );
             0
         }
